@@ -127,11 +127,26 @@ def _const_method_writes(prog, f, fam):
     def this_rooted(n):
         return [r for r in flow.root(n) if r[0] == "this"]
 
+    # recognised idiom: a lock_guard / unique_lock / scoped_lock on a mutex member; what it precedes is serialised
+    locks = []
+    for v in f.walk():
+        if v.k == "VarDecl" and re.search(r"std::(lock_guard|unique_lock|scoped_lock)<", v.type or "") and v.c:
+            for x in v.c[0].walk():
+                if x.k == "MemberExpr" and x.decl and x.decl.get("k") == "field" and SYNC_TYPES.search(x.decl.get("dt", "")):
+                    locks.append(v)
+
+    def under_lock(n):
+        return any(f.precedes(l, n) for l in locks)
+
     def describe(roots):
         return ", ".join("this->" + r[1] for r in sorted(set(roots)))
 
     for n in f.walk():
         # (i) mutable member used at all (unless a synchronisation primitive)
+        if locks and under_lock(n):
+            continue
+        if n.is_call() and n.callee and re.search(r"std::(lock_guard|unique_lock|scoped_lock)<", n.callee.get("cls", "") or ""):
+            continue
         if n.k == "MemberExpr" and n.decl and n.decl.get("k") == "field" and n.decl.get("mutable"):
             if not SYNC_TYPES.search(n.decl.get("dt", "")):
                 bad.append((n.line, "mutable-member:this->%s" % n.decl["n"],
